@@ -50,6 +50,9 @@ claimed = {
  "C15": dict(level="other", text="Bounded symbolic execution of the whole pipeline on a module-graph family with selectors for visibility, imports, missing items/modules and cycles, in map-order mode (module visiting orders are fork variables); diagnostics and outputs are compared with what the linking rules prescribe.",
              note="3 modules, one function/global/type each plus private same-named items; import templates/triggers and host builtin modules outside; 1 deviating map order per path. Trusted: go/ssa, gosym.",
              technique="bounded symbolic execution (go/ssa), exhaustive over module-graph selectors and single map-order deviations", design="§2 C15"),
+ "C19": dict(level="translation_validation", text="print -> re-lex -> re-parse -> re-analyse -> run inside one symbolic path for both printers on a 52-program corpus with unconstrained host inputs, a string literal with solver-variable content, and Optimize(p) vs p on the VM; outputs/outcomes compared as SMT terms.",
+             note="Corpus programs (not all programs); string literal content <= 2 (quick) / 3 (thorough) ASCII runes; numeric literal text, comments, impl blocks / annotations / imports in printed form are outside; optimiser differential on the corpus plus the nesting family depth 1 / 2. Trusted: go/ssa, gosym, z3.",
+             technique="differential bounded symbolic execution (print/re-parse and optimiser in/out) + SMT (z3)", design="§2 C19"),
  "C05": dict(level="other", text="Bounded symbolic execution of lexer (and parser/analyzer as they are added) with Go run-time panics and step-bound overruns as path outcomes; within the stated bounds no input makes the code panic or fail to make progress.",
              note="Lexer step totality/progress on windows of K runes (quick 3 / thorough 5); Parser.Parse over every sequence of <= L tokens with symbolic kinds and an optional (sticky or consumed) lexer error, L = 3 quick / 5 thorough, step bound 300k as termination obligation (token kind formatting stubbed). Analyzer totality on edited programs: see evidence. 64 KiB / depth-1000 inputs are not executed (outside). Trusted: go/ssa, gosym, z3.",
              technique="bounded symbolic execution (go/ssa) + SMT (z3), panic/bound outcomes", design="§2 C05"),
